@@ -165,16 +165,68 @@ def real_state(w):
     """
     import types
     labels = {}
+    idmap = {id(o): o for o in w.keep}
+    is_inst = lambda x: any(isinstance(x, c) for c in w.cls)      # noqa: E731
+
+    def holders():
+        metas = []
+        for c in w.cls:
+            if not any(type(c) is m for m in metas):
+                metas.append(type(c))
+        return metas + w.cls
+
+    def state_attrs():
+        for holder in holders():
+            for name in sorted(vars(holder)):
+                if name.startswith("__") and name.endswith("__"):
+                    continue
+                val = vars(holder)[name]
+                if isinstance(val, (types.FunctionType, types.MethodType, classmethod, staticmethod, property)):
+                    continue
+                if callable(val) and not isinstance(val, type):
+                    continue
+                yield name, val
+
+    # ---- pass 1: a label-free signature per instance = the (attribute, key path) places that hold it,
+    # where keys that are ids of instances are left out.  Instances are numbered by signature (ties: by
+    # creation order), so labels do not depend on dict insertion order.
+    sig = {}
+
+    def plain(x):
+        if isinstance(x, int) and not isinstance(x, bool) and x in idmap:
+            return None                     # an id(): not label-free
+        if isinstance(x, (int, float, str, bytes, bool, type(None))):
+            return repr(x)
+        if isinstance(x, type):
+            return "cls:" + x.__name__
+        if isinstance(x, (tuple, list)):
+            parts = [plain(e) for e in x]
+            return None if any(p is None for p in parts) else "(" + ",".join(parts) + ")"
+        return None
+
+    def scan(x, path):
+        if is_inst(x):
+            sig.setdefault(id(x), []).append(path)
+        elif isinstance(x, dict):
+            for k, v in x.items():
+                pk = plain(k)
+                scan(v, path + (pk if pk is not None else "<id>",))
+                if is_inst(k):
+                    sig.setdefault(id(k), []).append(path + ("<key>",))
+        elif isinstance(x, (list, tuple, set, frozenset)):
+            for e in x:
+                scan(e, path + ("[]",))
+
+    for name, val in state_attrs():
+        scan(val, (name,))
+    order = {id(o): n for n, o in enumerate(w.keep)}
+    for n, oid in enumerate(sorted(sig, key=lambda i: (sorted(sig[i]), order.get(i, 10 ** 9)))):
+        labels[oid] = (n, type(idmap[oid]).__name__ if oid in idmap else "?")
 
     def lab(o):
         if id(o) not in labels:
-            # the constructor arguments stored on the instance are deliberately not part of the
-            # state: nothing in the singleton machinery reads instance attributes, so two worlds
-            # that differ only there have the same futures (and keeping them multiplies the space)
             labels[id(o)] = (len(labels), type(o).__name__)
         return labels[id(o)]
-
-    idmap = {id(o): o for o in w.keep}
 
     def cv(x):
         if isinstance(x, int) and not isinstance(x, bool) and x in idmap:
@@ -184,18 +236,21 @@ def real_state(w):
         if isinstance(x, type):
             return ("cls", x.__name__)
         if isinstance(x, dict):
-            # keys first (their form never involves instance labels), then the values in key order, so
-            # that instance labels do not depend on insertion order
-            keyed = sorted(((repr(cv(k)), v) for k, v in x.items()), key=lambda kv: kv[0])
-            return ("dict",) + tuple((k, cv(v)) for k, v in keyed)
+            items = sorted(((repr(cv(k)), cv(v)) for k, v in x.items()), key=lambda kv: kv[0])
+            return ("dict",) + tuple(items)
         if isinstance(x, (list, tuple)):
             return (type(x).__name__,) + tuple(cv(e) for e in x)
         if isinstance(x, (set, frozenset)):
             return ("set",) + tuple(sorted(repr(cv(e)) for e in x))
-        if any(isinstance(x, c) for c in w.cls):
+        if is_inst(x):
             return ("inst",) + lab(x)
         return ("other", type(x).__name__)
 
+    return tuple((name, cv(val)) for name, val in state_attrs())
+
+
+def _unused_real_state_tail(w):
+    import types
     out = []
     metas = []
     for c in w.cls:
